@@ -668,7 +668,11 @@ def build_evidence(prop, tier, seed, ok, res, corpus, reported, known_hits,
                      '(joins, filters, indexes, apply_matcher, validation, '
                      'missing-value handler, helpers)', 'py_stringmatching',
                      'pandas', 'numpy', 'pickle/copyreg'],
-            'stub': ['joblib.Parallel -> sim.sched.SimParallel',
+            'stub': ['joblib.Parallel -> sim.sched.SimParallel (worker models '
+                     'inline / process / threads are simulated in-process; '
+                     'the rare model hashproc runs the tasks in real child '
+                     'interpreters with a seeded PYTHONHASHSEED, dispatch '
+                     'still decided by the plan)',
                      'multiprocessing.cpu_count', 'stdout/stderr sink'],
             'not_run': ['Cython twins (*_cy)', 'disk_edit_distance_join'],
         },
